@@ -419,7 +419,7 @@ def insertion_rules(repo):
         pos, ch = tg[1], tg[2]
         st = unparse(kwarg(c, "start", 2))
         body = [unparse(s) for s in il.body]
-        okv = "v = torch.zeros(1, X.shape[1], 1)" in body and "v[:, %s] = 1" % ch in body
+        okv = any(("v = torch.zeros(1, %s.shape[1], 1)" % b_) in body for b_ in ("X", "x")) and "v[:, %s] = 1" % ch in body
         if st != pos:
             out.append(violation("INS", fi, role, "insert(..., start=%s): expected the row's coordinate `%s`" % (st, pos), c))
         elif not okv:
